@@ -9,12 +9,19 @@
 (*   "phot"  three narrow contiguous bins and one broad photometric bin beyond a gap, on either side             *)
 (*   "two"   two instruments: narrow contiguous bins, a gap, broad contiguous bins                                *)
 (*   "over"  narrow bins and a broad bin that overlaps them and reaches beyond the clip window (NOT licensed)    *)
+(*   "ovl"   bins that overlap each other INSIDE the clip window: two instruments observing the same range, a    *)
+(*           photometric band on top of spectroscopic bins (bins nested in it), the same band measured twice,    *)
+(*           contiguous bins widened by a sliver (widths derived from the centres / converted from wavelength);  *)
+(*           placed where the native spacing is 1 and where it is 2 (offsets scaled by the spacing)              *)
 EXTENDS LikeGrid
 CONSTANTS Rule,        \* margin rule of the mechanism ("max" = the code)
           Families,    \* subset of the family names
           Starts,      \* lattice positions of the first bin edge
           Lens,        \* numbers of bins of the geo / rev / gap families
           ASet, ARef,  \* values of the fitted parameter; the data are the binned model at ARef (floored) + small offsets
+          Search,      \* how the binner finds the native cells of a bin: "each" = in the whole grid handed to it (the
+                       \* code) | "resume" = from the last cell the previous bin used (expected counterexample)
+          OvlN,        \* number of places of the "ovl" family (of OvlPlaces)
           Licensed,    \* TRUE: the invariants are asserted for layouts inside the clip window only (the code's contract)
           Export
 VARIABLES lay, a
@@ -48,7 +55,23 @@ TwoSet  == {Mk("two", Join(Contig(s, <<2, 2, 2, 2>>), Contig(s + 8 + d, <<10, 14
 OverSet == {[fam |-> "over", oc |-> <<s + 21, s + 23, s + 24, s + 25>>, ow2 |-> <<4, 4, w, 4>>] : s \in Starts, w \in {40, 48}}
            \cup {[fam |-> "over", oc |-> <<s + 21, s + 29>>, ow2 |-> <<w, w>>] : s \in Starts, w \in {40, 48}}
 
-All == (IF "geo" \in Families THEN GeoSet ELSE {}) \cup (IF "rev" \in Families THEN RevSet ELSE {})
+\* bins overlapping inside the window: offsets in units of the native spacing k at the place, from lattice position s
+OvlPlaces == <<<<5, 1>>, <<28, 2>>, <<10, 1>>, <<32, 2>>>>
+OvlAt(s, k, cs, ws, e) == [fam |-> "ovl", oc |-> [j \in 1..Len(cs) |-> s + k * cs[j]],
+                           ow2 |-> [j \in 1..Len(cs) |-> 2 * k * ws[j] + e]]
+OvlShapes == {
+    \* two instruments: narrow bins 0..12 and two broad bins [1,7], [3,9] over the same range (they overlap each other too)
+    [cs |-> <<1, 3, 4, 5, 6, 7, 9, 11>>, ws |-> <<2, 2, 6, 2, 6, 2, 2, 2>>, e |-> {0}],
+    \* a band [2,10] on top of spectroscopic bins: the bins [4,6], [6,8] are nested in it
+    [cs |-> <<1, 3, 5, 6, 7, 9, 11>>, ws |-> <<2, 2, 2, 8, 2, 2, 2>>, e |-> {0}],
+    \* the same band measured twice
+    [cs |-> <<1, 3, 5, 5, 7, 9>>, ws |-> <<2, 2, 2, 2, 2, 2>>, e |-> {0}],
+    \* contiguous bins, every one widened by a sliver of e quarter units on both sides
+    [cs |-> <<1, 3, 5, 7, 9, 11>>, ws |-> <<2, 2, 2, 2, 2, 2>>, e |-> {1, 3}]}
+OvlSet == {OvlAt(OvlPlaces[n][1], OvlPlaces[n][2], sh.cs, sh.ws, e) : <<n, sh, e>> \in
+              {t \in (1..OvlN) \X OvlShapes \X {0, 1, 3} : t[3] \in t[2].e}}
+
+All == (IF "ovl" \in Families THEN OvlSet ELSE {}) \cup (IF "geo" \in Families THEN GeoSet ELSE {}) \cup (IF "rev" \in Families THEN RevSet ELSE {})
        \cup (IF "gap" \in Families THEN GapSet ELSE {}) \cup (IF "phot" \in Families THEN PhotSet ELSE {})
        \cup (IF "two" \in Families THEN TwoSet ELSE {}) \cup (IF "over" \in Families THEN OverSet ELSE {})
 InRange(l) == 4 * l.oc[1] - l.ow2[1] >= 4 * NatG[1] /\ 4 * l.oc[Len(l.oc)] + l.ow2[Len(l.oc)] <= 4 * NatG[57]
@@ -64,7 +87,7 @@ Data == [j \in 1..Len(lay.oc) |-> RefBin(j) + (j % 3) - 1]
 Sig  == [j \in 1..Len(lay.oc) |-> 1 + (j % 2)]
 F    == LGSpectrum(C0, C1, a)
 TDef == LGChiTerms(NatG, F, lay.oc, lay.ow2, Data, Sig)       \* chi2 terms by the definition; h = (sum of them) / 2
-Mech == LGMech(NatG, F, lay.oc, lay.ow2, Data, Sig, Rule)
+Mech == LGMechBy(NatG, F, lay.oc, lay.ow2, Data, Sig, Rule, Search)
 Lo   == LGLo(NatG, lay.oc, Rule)
 Hi   == LGHi(NatG, lay.oc, Rule)
 \* licensed layouts: the clip window of the code, [cmin - W, cmax + W] with W the widest mid-point width of the
@@ -93,6 +116,6 @@ Emit == Export =>
     PrintT(<<"VEC", ToJson([fam |-> lay.fam, oc |-> lay.oc, ow2 |-> lay.ow2, a |-> a, data |-> Data, sig |-> Sig,
                             z2 |-> TDef, binned |-> LGBinnedSeq(NatG, F, lay.oc, lay.ow2), inside |-> Inside, lo |-> Lo, hi |-> Hi,
                             growth2 |-> LGGrowth2(lay.ow2), gap |-> LGHasGap(lay.oc, lay.ow2),
-                            overlapping |-> LGOverlapping(lay.oc, lay.ow2),
+                            overlapping |-> LGOverlapping(lay.oc, lay.ow2), overlapq |-> LGOverlapQ(lay.oc, lay.ow2),
                             nat |-> NatG, c0 |-> C0, c1 |-> C1])>>)
 =============================================================================
